@@ -15,23 +15,24 @@ import (
 // number); oracles never do.
 
 type AdvOpts struct {
-	Steps        int
-	AllowStop    bool // engine Stop() as an action (C08)
-	AllowSends   bool // engine-side application sends
-	AllowCuts    bool
-	RejectApp    bool // application rejects some inbound messages
-	Weights      []int
-	AfterStep    func(label string)
-	Corrupt      func(frame []byte) []byte // C09: in-flight corruption of what the peer sends
-	HonestLogon  bool // (re)logons are in sequence, without reset
+	Steps       int
+	AllowStop   bool // engine Stop() as an action (C08)
+	AllowSends  bool // engine-side application sends
+	AllowCuts   bool
+	AppTypes    bool // inbound application messages are not only orders
+	RejectApp   bool // application rejects some inbound messages
+	Weights     []int
+	AfterStep   func(label string)
+	Corrupt     func(frame []byte) []byte // C09: in-flight corruption of what the peer sends
+	HonestLogon bool                      // (re)logons are in sequence, without reset
 }
 
 type Adv struct {
-	s     *Sut
-	env   *Env
-	o     AdvOpts
-	hb    int
-	sendN int
+	s      *Sut
+	env    *Env
+	o      AdvOpts
+	hb     int
+	sendN  int
 	Logons int
 }
 
@@ -108,6 +109,16 @@ func (a *Adv) ensureSession() bool {
 	return p.Connected()
 }
 
+// sendApp sends an application message: an order, or (option AppTypes, from FIX.4.2) now and then a
+// BusinessMessageReject, which is an application message too.
+func (a *Adv) sendApp(id string, o MsgOpt) []RecvMsg {
+	if a.o.AppTypes && a.s.E.Cfg.BeginString >= "FIX.4.2" && a.env.Ch.Chance("apptype", 1, 6) {
+		a.env.Stat("probe_inbound_business_reject")
+		return a.send("j", []wire.Field{wire.F(45, "1"), wire.F(372, "D"), wire.F(380, "0"), wire.F(58, id)}, o)
+	}
+	return a.send("D", AppBody(id), o)
+}
+
 func (a *Adv) send(t string, body []wire.Field, o MsgOpt) []RecvMsg {
 	p := a.s.P
 	b, _ := p.Build(t, body, o)
@@ -145,13 +156,13 @@ func (a *Adv) Step() string {
 	case 0: // application message at the peer's own next number (honest)
 		id := p.NextID()
 		label = fmt.Sprintf("app %s seq=%d (T=%d)", id, p.OutSeq, T)
-		a.send("D", AppBody(id), MsgOpt{})
+		a.sendApp(id, MsgOpt{})
 	case 1: // application message too high
 		k := 1 + ch.Choose("skip", 5)
 		p.OutSeq += k
 		id := p.NextID()
 		label = fmt.Sprintf("app %s seq=%d skipping %d (T=%d)", id, p.OutSeq, k, T)
-		a.send("D", AppBody(id), MsgOpt{})
+		a.sendApp(id, MsgOpt{})
 		env.Stat("fault_sequence_gap")
 	case 2: // too low without PossDup
 		if T <= 1 {
@@ -160,7 +171,7 @@ func (a *Adv) Step() string {
 		n := 1 + ch.Choose("low", T-1)
 		id := p.NextID()
 		label = fmt.Sprintf("app %s seq=%d too low, no PossDup (T=%d)", id, n, T)
-		a.send("D", AppBody(id), MsgOpt{Seq: n})
+		a.sendApp(id, MsgOpt{Seq: n})
 		env.Stat("fault_too_low")
 	case 3: // possible duplicate, exactly at / below / above T
 		n := T + ch.Choose("dupoff", 4) - 1
@@ -179,7 +190,7 @@ func (a *Adv) Step() string {
 		if n >= p.OutSeq {
 			o.Advance = true
 		}
-		a.send("D", AppBody(id), o)
+		a.sendApp(id, o)
 		env.Stat("fault_possdup")
 	case 4: // heartbeat, honest number
 		label = fmt.Sprintf("heartbeat seq=%d (T=%d)", p.OutSeq, T)
@@ -263,7 +274,7 @@ func (a *Adv) Step() string {
 		if T >= p.OutSeq {
 			o.Advance = true
 		}
-		a.send("D", AppBody(id), o)
+		a.sendApp(id, o)
 	case 12: // silence
 		k := 1 + ch.Choose("silence", 26)
 		d := time.Duration(k) * time.Duration(a.hb) * time.Second / 10
